@@ -73,6 +73,35 @@ fn sections(tier: Tier, seed: u64) -> Vec<(&'static str, Box<dyn Fn(Emit)>)> {
             }
         }
     })));
+    // caller-shaped arguments of the classic generic hash: the output buffer handed to final /
+    // one-shot need not have the length given to init (libsodium writes what final is asked for);
+    // verdict and bytes must not depend on the backend
+    v.push(("generichash-mismatched-lengths", Box::new(move |e| {
+        use dryoc::classic::crypto_generichash::*;
+        let key: [u8; 32] = karr(seed ^ 0x77, 3);
+        for keyed in [false, true] {
+            for mlen in [0usize, 1, 127, 128, 129, 300] {
+                let msg = cval(seed, 3, mlen);
+                for a in [16usize, 20, 32, 48, 64] {
+                    for b in [1usize, 15, 16, 20, 32, 48, 63, 64] {
+                        let r = guarded(std::panic::AssertUnwindSafe(|| {
+                            let mut st = crypto_generichash_init(if keyed { Some(&key[..]) } else { None }, a).map_err(|_| "init-err".to_string())?;
+                            crypto_generichash_update(&mut st, &msg);
+                            let mut out = vec![0xC3u8; b];
+                            crypto_generichash_final(st, &mut out).map_err(|_| "final-err".to_string())?;
+                            Ok::<Vec<u8>, String>(out)
+                        }));
+                        let rec = match r {
+                            Ok(Ok(o)) => o,
+                            Ok(Err(x)) => x.into_bytes(),
+                            Err(_) => b"panic".to_vec(),
+                        };
+                        e(format!("{}/{}/{}/{}", keyed, mlen, a, b), rec);
+                    }
+                }
+            }
+        }
+    })));
     v.push(("argon2", Box::new(move |e| {
         let pwd = cval(seed, 3, 8);
         let salt = kval(seed ^ 9, 3, 16);
